@@ -2,8 +2,11 @@
 package main
 
 import (
+	"context"
 	"encoding/json"
 	"fmt"
+	"math"
+	"net/http/httptest"
 	"os"
 	"path/filepath"
 	"regexp"
@@ -11,6 +14,7 @@ import (
 	"sort"
 	"strings"
 
+	"github.com/ErdemOzgen/blackdagger/internal/agent"
 	"github.com/ErdemOzgen/blackdagger/internal/dag"
 	"github.com/ErdemOzgen/blackdagger/internal/dag/scheduler"
 	"github.com/ErdemOzgen/blackdagger/internal/persistence/model"
@@ -47,6 +51,7 @@ type PDag struct {
 	JSONOk   bool              `json:"json_ok"`
 	JSONErr  string            `json:"json_err,omitempty"`
 	Conds    []CondRes         `json:"conds"`
+	Endpoint string            `json:"endpoint,omitempty"` // GET /status on an agent of this DAG: "200" | "panic: .." | "skip: .." | "<code>"
 }
 
 // CondRes: outcome class of EvalConditions on ONE accepted condition.
@@ -307,7 +312,52 @@ func runMeta(file string) Res {
 	return guarded(func() (*dag.DAG, error) { return dag.LoadMetadata(file) }, true)
 }
 func runNoEval(file string) Res {
-	return guarded(func() (*dag.DAG, error) { return dag.LoadWithoutEval(file) }, true)
+	var keep *dag.DAG
+	r := guarded(func() (*dag.DAG, error) {
+		d, err := dag.LoadWithoutEval(file)
+		keep = d
+		return d, err
+	}, true)
+	if r.Cls == "ok" && keep != nil {
+		r.Dag.Endpoint = serveStatus(keep)
+	}
+	return r
+}
+
+// serveStatus drives the live status endpoint of the agent (agent.go HandleHTTP, GET /status) for an accepted
+// DAG.  The agent is set up by Run, which is made to stop right after setup by an unmet (command-free)
+// precondition: no step runs, no history is written, no socket is bound.
+func serveStatus(d *dag.DAG) (out string) {
+	defer func() {
+		if r := recover(); r != nil {
+			out = "panic: " + trunc(fmt.Sprint(r), 100)
+		}
+	}()
+	cp := *d
+	cp.Preconditions = []dag.Condition{{Condition: "verif-never", Expected: "verif-met"}}
+	a := agent.New("verif-req", &cp, quietLogger, scratch, filepath.Join(scratch, "agent.log"), nil, nil, &agent.Options{Dry: true})
+	err := a.Run(context.Background())
+	if err == nil || !strings.Contains(err.Error(), "condition was not met") {
+		return "skip: " + trunc(fmt.Sprint(err), 80)
+	}
+	rec := httptest.NewRecorder()
+	a.HandleHTTP(rec, httptest.NewRequest("GET", "/status", nil))
+	if rec.Code == 200 {
+		var st map[string]any
+		if json.Unmarshal(rec.Body.Bytes(), &st) != nil {
+			return "200-invalid-json"
+		}
+		return "200"
+	}
+	return fmt.Sprint(rec.Code)
+}
+
+// endpointControl: the error path of the endpoint with a hand-built DAG whose status json.Marshal refuses - what
+// the model calls serve_status = Panic.  The loader can no longer produce such a DAG (C13_serialisable).
+func endpointControl() string {
+	d := &dag.DAG{Name: "ctl", Location: filepath.Join(scratch, "ctl.yaml"), SMTP: &dag.SMTPConfig{}, ErrorMail: &dag.MailConfig{}, InfoMail: &dag.MailConfig{},
+		Steps: []dag.Step{{Name: "s1", Command: "true", ExecutorConfig: dag.ExecutorConfig{Config: map[string]any{"x": math.NaN()}}}}}
+	return serveStatus(d)
 }
 func runLoad(file string, params string) Res {
 	return guarded(func() (*dag.DAG, error) { return dag.Load("", file, params) }, true)
